@@ -141,7 +141,14 @@ class MatrixProductOperator(EndomorphicOperator):
 
         if self._spaces is None:
             if not self._flatten:
-                res = np.dot(m, x.val)
+                # contract all axes of the input (np.dot is only correct for
+                # one-dimensional domains)
+                nd = len(self._domain.shape)
+                if times:
+                    res = np.tensordot(self._mat, x.val, axes=nd)
+                else:
+                    res = np.tensordot(self._mat.conj(), x.val,
+                                       axes=(tuple(range(nd)), tuple(range(nd))))
             else:
                 res = np.dot(m, x.val.flatten()).reshape(self._domain.shape)
             return Field(self._domain, res)
